@@ -164,3 +164,25 @@ package v2
 //@   ensures [every-alert-that-passes-is-listed] !called("NewGetAlertsInternalServerError") && !called("NewGetAlertGroupsBadRequest") && !called("NewGetAlertsBadRequest") ==> count("AlertToOpenAPIAlert") == counttrue0("dynamic:resultof:alertFilter") && called("NewGetAlertsOK")
 //@   at call GetAlertsOK).WithPayload assert [the-list-is-the-answer] len(arg1) == count("AlertToOpenAPIAlert")
 //@   noeffect slices.ContainsFunc alertFilter receiverLabelsMap requestLogger AlertMarker).Status AlertIterator).Close AlertIterator).Err AlertIterator).Next Alerts).GetPending dynamic:resultof:alertFilter AlertToOpenAPIAlert parseFilter receiversMatchLabels
+
+// C12: GET /silences lists every silence the store returns for the requested states that matches the label filter -
+// each exactly once - and asks the store for exactly the states the caller did not exclude.
+//@ func (*API).getSilencesHandler
+//@   props C12
+//@   abstract
+//@   nosafe
+//@   assumes api != nil && api.silences != nil && tracer != nil && params.Active != nil && params.Expired != nil && params.Pending != nil
+//@   after call Tracer).Start assume res0 != nil && res1 != nil
+//@   at call silence.QState assert [exactly-the-requested-states] ((silence.SilenceStateActive in elems(arg0)) == deref(params.Active)) && ((silence.SilenceStateExpired in elems(arg0)) == deref(params.Expired)) && ((silence.SilenceStatePending in elems(arg0)) == deref(params.Pending))
+//@   at call Silences).Query assert [this-store] arg0 == api.silences
+//@   at call CheckSilenceMatchesFilterLabels assert [each-returned-silence-against-the-filter] arg0 == ret("Silences).Query")[rangeindex1 + 1] && arg1 == ret("parseFilter")
+//@   at call GettableSilenceFromProto assert [only-matching-silences] ret("CheckSilenceMatchesFilterLabels") && arg0 == ret("Silences).Query")[rangeindex1 + 1]
+//@   ensures [every-matching-silence-is-listed] called("NewGetSilencesOK") ==> count("CheckSilenceMatchesFilterLabels") == len(ret("Silences).Query")) && count("GettableSilenceFromProto") == counttrue0("CheckSilenceMatchesFilterLabels")
+//@   at call GetSilencesOK).WithPayload assert [the-list-is-the-answer] len(arg1) == count("GettableSilenceFromProto")
+//@   ensures [bad-filter-is-400] called("parseFilter") && ret1("parseFilter") != nil ==> called("NewGetSilencesBadRequest") && !called("Silences).Query") && !called("NewGetSilencesOK")
+//@   ensures [store-error-is-500] called("Silences).Query") && ret2("Silences).Query") != nil ==> called("NewGetSilencesInternalServerError") && !called("NewGetSilencesOK")
+//@   ensures [success-is-200] called("parseFilter") && ret1("parseFilter") == nil && called("Silences).Query") && ret2("Silences).Query") == nil && countnil1("GettableSilenceFromProto") == count("GettableSilenceFromProto") ==> called("NewGetSilencesOK")
+//@   loop 1 invariant rangeindex < len(ret("Silences).Query")) && count("CheckSilenceMatchesFilterLabels") == rangeindex + 1 && count("GettableSilenceFromProto") == counttrue0("CheckSilenceMatchesFilterLabels") && len(sils) == count("GettableSilenceFromProto") && !called("NewGetSilencesOK") && countnil1("GettableSilenceFromProto") == count("GettableSilenceFromProto")
+//@   loop 1 invariant called("parseFilter") && ret1("parseFilter") == nil && called("Silences).Query") && ret2("Silences).Query") == nil
+//@   opaque parseFilter requestLogger CheckSilenceMatchesFilterLabels GettableSilenceFromProto SortSilences silence.QState Silences).Query
+//@   noeffect parseFilter requestLogger CheckSilenceMatchesFilterLabels GettableSilenceFromProto SortSilences silence.QState Silences).Query
